@@ -254,6 +254,52 @@ def argument_forms_worker(part, _):
         part.state(("argforms", mi))
 
 
+def special_vectors_worker(part, _):
+    """
+    lattice VECTORS with special values: axes permuted or turned by exactly 90 degrees (three non-zero entries, unequal lengths), edges of
+    equal length with unequal angles (hexagonal a = c; monoclinic a = b = c; a supercell whose scaled edges happen to coincide), exact
+    right angles in a rotated frame - the cell is the one the vectors span, whatever they look like
+    """
+    from chmpy.crystal.unit_cell import UnitCell
+    from mc.ref.mol import rot
+
+    Q = rot((1, 2, 3), 0.7)
+    P = np.array([[0.0, 1.0, 0.0], [0.0, 0.0, 1.0], [1.0, 0.0, 0.0]])
+    named = {
+        "permuted-diagonal": np.array([[0.0, 5.0, 0.0], [0.0, 0.0, 6.0], [7.0, 0.0, 0.0]]),
+        "quarter-turn": np.array([[0.0, -5.0, 0.0], [6.0, 0.0, 0.0], [0.0, 0.0, 7.0]]),
+        "negative-diagonal": np.diag([-5.0, 6.0, -7.0]),
+        "hexagonal a=c": lattice.cell_matrix(6.0, 6.0, 6.0, 90.0, 90.0, 120.0),
+        "monoclinic a=b=c": lattice.cell_matrix(6.0, 6.0, 6.0, 90.0, 105.0, 90.0),
+        "triclinic a=b=c": lattice.cell_matrix(6.0, 6.0, 6.0, 81.0, 97.0, 104.0),
+        "supercell with equal edges": lattice.cell_matrix(6.0, 12.0, 12.0, 90.0, 105.0, 90.0) * np.array([[2.0], [1.0], [1.0]]),
+        "orthorhombic rotated": lattice.cell_matrix(5.0, 6.0, 7.0, 90.0, 90.0, 90.0) @ Q.T,
+        "orthorhombic permuted": lattice.cell_matrix(5.0, 6.0, 7.0, 90.0, 90.0, 90.0) @ P.T,
+        "hexagonal a=c rotated": lattice.cell_matrix(6.0, 6.0, 6.0, 90.0, 90.0, 120.0) @ Q.T,
+        "two equal edges, three different angles": lattice.cell_matrix(7.0, 7.0, 9.0, 80.0, 95.0, 120.0),
+    }
+    for nm, D in named.items():
+        ln = np.linalg.norm(D, axis=1)
+        params = (ln[0], ln[1], ln[2], angle(D[1], D[2]), angle(D[0], D[2]), angle(D[0], D[1]))
+        for route in ("constructor", "set_vectors"):
+            part.ev()
+            part.tr()
+            case = {"kind": "specialvec"}
+            try:
+                if route == "constructor":
+                    uc = UnitCell(D.copy())
+                else:
+                    uc = UnitCell(np.eye(3) * 3.0)
+                    uc.set_vectors(D.copy())
+                ok = check_cell(part, uc, params, "special-vectors:%s" % route, case, frame_free=True)
+                if ok and not (np.abs(np.asarray(uc.direct, dtype=float) - D).max() <= 1e-9 * ln.max()):
+                    part.fail("special-vectors:direct", "UnitCell from the vectors '%s' (%s) does not keep them as its direct matrix" % (nm, route), case)
+            except Exception as e:
+                part.fail("raise:special-vectors:%s" % route, "UnitCell from the vectors '%s' (%s) raised %s: %s" % (nm, route, type(e).__name__, str(e)[:80]), case)
+            part.outcome(("specialvec", nm, route))
+        part.state(("specialvec", nm))
+
+
 def _readonly(a):
     a.setflags(write=False)
     return a
@@ -424,6 +470,7 @@ def run(ctx):
     ctx.pmap(grid_worker, chunked(cells, max(1, len(cells) // 128)), unit_rad=True)
     ctx.pmap(named_worker, [0])
     ctx.pmap(argument_forms_worker, [0])
+    ctx.pmap(special_vectors_worker, [0])
     ctx.bounds["argument_forms"] = "8 whole-number lattices (orthogonal and oblique) x 8 array forms (integer dtypes / Fortran / strided / read-only) x {constructor, set_vectors}"
     ctx.pmap(history_worker, [3 if ctx.thorough else 2])
     bases = [(7.0, 8.0, 9.0, 81.0, 97.0, 104.0), (5.1, 11.3, 13.7, 60.0, 65.0, 115.0), (7.0, 7.0, 7.0, 90.0, 90.0, 90.0), (6.0, 6.0, 11.0, 90.0, 90.0, 120.0),
@@ -439,6 +486,8 @@ def replay(ctx, case):
         near_duplicate_worker(ctx, tuple(case["base"]))
     elif case.get("kind") == "history":
         history_worker(ctx, 3)
+    elif case.get("kind") == "specialvec":
+        special_vectors_worker(ctx, 0)
     elif case.get("kind") == "argforms":
         argument_forms_worker(ctx, 0)
     elif case.get("kind") == "grid":
